@@ -1,3 +1,166 @@
-import Anytree.Spec.Export
+import Anytree.Props.C12
+/-!
+# C13 — Mermaid export declares exactly the admitted nodes and only edges between them
+-/
 namespace Anytree.Props.C13
+open Anytree Tree Export Spec
+variable {α κ : Type}
+
+/-- MermaidExporter with any pure name function (after the D2 fix) emits exactly the demanded text:
+header, options, one node line per declared node in pre-order, one edge line per parent–child pair
+whose two ends are both declared; the id map is untouched -/
+theorem mermaid_lines_pure (c : MermaidCfg α κ) (nm : Tree α → String) (t : Tree α) (st : IdMap κ) :
+    merIter false { c with nodename := NameFn.pure nm } t st = (Spec.merLinesS c nm t, st) := by
+  unfold merIter
+  simp only [merNodes_pure, merEdges_pure, C06.preIter_spec, edgeMax_false]
+  simp only [merLinesS, declared, edgePairs_struct, List.map_flatMap, List.map_map]
+  rfl
+
+open C12 in
+theorem merNodes_pass [DecidableEq κ] (fmt : Nat → String) (key : Tree α → κ) (c : MermaidCfg α κ)
+    (hc : c.nodename = ctrName fmt key) (ind : String) (ns : List (Tree α)) :
+    Pass fmt key (merNodes c ind ns) (fun nm => ns.map (merNodeLine ind nm c.nodefunc)) := by
+  induction ns with
+  | nil => exact Pass.nil fmt key
+  | cons n ns ih =>
+    have hb := Pass.bind fmt key n
+      (fun pn st => ((ind ++ pn ++ c.nodefunc n) ::
+        (merNodes c ind ns st).1, (merNodes c ind ns st).2))
+      (fun nm => merNodeLine ind nm c.nodefunc n :: ns.map (merNodeLine ind nm c.nodefunc))
+      (by
+        intro pn st
+        obtain ⟨e, w, f⟩ := ih st
+        refine ⟨e, w, fun st' hst' hpn => ?_⟩
+        show _ :: (merNodes c ind ns st).1 = _
+        rw [f st' hst', hpn]; rfl)
+    refine hb.congr fmt key (fun st => ?_) (fun nm => rfl)
+    rw [merNodes_cons, hc]
+
+open C12 in
+theorem merEdgesOf_pass [DecidableEq κ] (fmt : Nat → String) (key : Tree α → κ) (c : MermaidCfg α κ)
+    (hc : c.nodename = ctrName fmt key) (ind : String) (p : Tree α) (chs : List (Tree α)) :
+    ∀ pn st, Extends st (merEdgesOf c ind pn p chs st).2 ∧
+      (IdMap.WF st → IdMap.WF (merEdgesOf c ind pn p chs st).2) ∧
+      ∀ st', Extends (merEdgesOf c ind pn p chs st).2 st' → pn = finalName fmt st' key p →
+        (merEdgesOf c ind pn p chs st).1 =
+          (chs.filter (fun ch => c.filter ch && !c.stop ch)).map
+            (fun ch => merEdgeLine ind (finalName fmt st' key) c.edgefunc (p, ch)) := by
+  induction chs with
+  | nil => intro pn st; exact ⟨Extends.refl st, id, fun _ _ _ => rfl⟩
+  | cons ch chs ih =>
+    intro pn st
+    cases h : (c.filter ch && !c.stop ch) with
+    | false =>
+      rw [merEdgesOf_cons_skip c _ _ _ _ _ _ h]
+      simp only [List.filter_cons, h, Bool.false_eq_true, if_false]
+      exact ih pn st
+    | true =>
+      rw [merEdgesOf_cons_keep c _ _ _ _ _ _ h, hc]
+      simp only [List.filter_cons, h, if_true, List.map_cons]
+      obtain ⟨e1, w1, f1⟩ := ctrName_step fmt key st ch
+      obtain ⟨e2, w2, f2⟩ := ih pn (ctrName fmt key st ch).2
+      refine ⟨e1.trans e2, fun hw => w2 (w1 hw), fun st' hst' hpn => ?_⟩
+      show _ :: (merEdgesOf c ind pn p chs (ctrName fmt key st ch).2).1 = _
+      rw [f2 st' hst' hpn, f1 st' (e2.trans hst'), hpn]; rfl
+
+open C12 in
+theorem merEdges_pass [DecidableEq κ] (fmt : Nat → String) (key : Tree α → κ) (c : MermaidCfg α κ)
+    (hc : c.nodename = ctrName fmt key) (ind : String) (ps : List (Tree α)) :
+    Pass fmt key (merEdges c ind ps) (fun nm => ps.flatMap (fun p =>
+      (p.kids.filter (fun ch => c.filter ch && !c.stop ch)).map
+        (fun ch => merEdgeLine ind nm c.edgefunc (p, ch)))) := by
+  induction ps with
+  | nil => exact Pass.nil fmt key
+  | cons p ps ih =>
+    have hb := Pass.bind fmt key p
+      (fun pn st => ((merEdgesOf c ind pn p p.kids st).1 ++
+          (merEdges c ind ps (merEdgesOf c ind pn p p.kids st).2).1,
+        (merEdges c ind ps (merEdgesOf c ind pn p p.kids st).2).2))
+      (fun nm => (p.kids.filter (fun ch => c.filter ch && !c.stop ch)).map
+          (fun ch => merEdgeLine ind nm c.edgefunc (p, ch)) ++
+        ps.flatMap (fun p => (p.kids.filter (fun ch => c.filter ch && !c.stop ch)).map
+          (fun ch => merEdgeLine ind nm c.edgefunc (p, ch))))
+      (by
+        intro pn st
+        obtain ⟨e1, w1, f1⟩ := merEdgesOf_pass fmt key c hc ind p p.kids pn st
+        obtain ⟨e2, w2, f2⟩ := ih (merEdgesOf c ind pn p p.kids st).2
+        refine ⟨e1.trans e2, fun hw => w2 (w1 hw), fun st' hst' hpn => ?_⟩
+        show (merEdgesOf c ind pn p p.kids st).1 ++ _ = _
+        rw [f1 st' (e2.trans hst') hpn, f2 st' hst'])
+    refine hb.congr fmt key (fun st => ?_) (fun nm => ?_)
+    · rw [merEdges_cons, hc]
+    · rw [List.flatMap_cons]
+
+theorem merIter_eq (legacy : Bool) (c : MermaidCfg α κ) (t : Tree α) (st : IdMap κ) :
+    merIter legacy c t st =
+      ([c.graph ++ " " ++ c.name] ++ c.options.map (fun o => spaces c.indent ++ o) ++
+        (merNodes c (spaces c.indent) (Iter.preIter c.filter c.stop c.maxlevel t) st).1 ++
+        (merEdges c (spaces c.indent) (Iter.preIter c.filter c.stop (edgeMax legacy c.maxlevel) t)
+          (merNodes c (spaces c.indent) (Iter.preIter c.filter c.stop c.maxlevel t) st).2).1,
+       (merEdges c (spaces c.indent) (Iter.preIter c.filter c.stop (edgeMax legacy c.maxlevel) t)
+          (merNodes c (spaces c.indent) (Iter.preIter c.filter c.stop c.maxlevel t) st).2).2) := rfl
+
+open C12 in
+/-- the whole Mermaid iteration with a counter-based naming -/
+theorem mermaid_ctr_eq_pure [DecidableEq κ] (fmt : Nat → String) (c : MermaidCfg α κ)
+    (key : Tree α → κ) (t : Tree α) (st : IdMap κ) :
+    let r := merIter false { c with nodename := ctrName fmt key } t st
+    r.1 = (merIter false { c with nodename := NameFn.pure (finalName fmt r.2 key) } t st).1 ∧
+    Extends st r.2 ∧ (IdMap.WF st → IdMap.WF r.2) := by
+  intro r
+  have hN := merNodes_pass fmt key { c with nodename := ctrName fmt key } rfl (spaces c.indent)
+    (Iter.preIter c.filter c.stop c.maxlevel t)
+  have hE := merEdges_pass fmt key { c with nodename := ctrName fmt key } rfl (spaces c.indent)
+    (Iter.preIter c.filter c.stop (edgeMax false c.maxlevel) t)
+  have hA := (Pass.append fmt key _ _ _ _ hN hE) st
+  obtain ⟨e, w, f⟩ := hA
+  refine ⟨?_, e, w⟩
+  have hf := f r.2 (Extends.refl _)
+  rw [mermaid_lines_pure]
+  show r.1 = merLinesS c (finalName fmt r.2 key) t
+  have hr : r.1 = [c.graph ++ " " ++ c.name] ++ c.options.map (fun o => spaces c.indent ++ o) ++
+      ((merNodes { c with nodename := ctrName fmt key } (spaces c.indent)
+          (Iter.preIter c.filter c.stop c.maxlevel t) st).1 ++
+        (merEdges { c with nodename := ctrName fmt key } (spaces c.indent)
+          (Iter.preIter c.filter c.stop (edgeMax false c.maxlevel) t)
+          (merNodes { c with nodename := ctrName fmt key } (spaces c.indent)
+            (Iter.preIter c.filter c.stop c.maxlevel t) st).2).1) := by
+    show (merIter false { c with nodename := ctrName fmt key } t st).1 = _
+    rw [merIter_eq]
+    simp only [List.append_assoc]
+  rw [hr]
+  have hf' : (merNodes { c with nodename := ctrName fmt key } (spaces c.indent)
+          (Iter.preIter c.filter c.stop c.maxlevel t) st).1 ++
+        (merEdges { c with nodename := ctrName fmt key } (spaces c.indent)
+          (Iter.preIter c.filter c.stop (edgeMax false c.maxlevel) t)
+          (merNodes { c with nodename := ctrName fmt key } (spaces c.indent)
+            (Iter.preIter c.filter c.stop c.maxlevel t) st).2).1 = _ := hf
+  rw [hf']
+  simp only [merLinesS, declared, edgePairs_struct, List.map_flatMap, List.map_map,
+    C06.preIter_spec, edgeMax_false, List.append_assoc]
+  rfl
+
+/-- the default `N<k>` identifiers: same lines as the pure naming read off the final map; the map
+only grows and stays well-formed (distinct nodes ↦ distinct ids, stable across iterations) -/
+theorem mermaid_default_eq_pure [DecidableEq κ] (c : MermaidCfg α κ) (key : Tree α → κ) (t : Tree α)
+    (st : IdMap κ) :
+    let r := merIter false { c with nodename := mermaidName key } t st
+    r.1 = (merIter false { c with nodename := NameFn.pure (C12.finalN r.2 key) } t st).1 ∧
+    (∀ k n, st.lookup k = some n → r.2.lookup k = some n) ∧
+    (C12.IdMap.WF st → C12.IdMap.WF r.2) :=
+  mermaid_ctr_eq_pure (fun n => "N" ++ toString n) c key t st
+
+def d2Tree : Tree Nat := node 0 [node 1 [], node 2 []]
+def d2Cfg : MermaidCfg Nat Nat :=
+  { graph := "graph", name := "TD", options := [], indent := 0,
+    nodename := NameFn.pure (fun n => "n" ++ toString n.label), nodefunc := fun _ => "",
+    edgefunc := fun _ _ => "-->", filter := fun _ => true, stop := fun _ => false,
+    maxlevel := some 0 }
+
+/-- before the repair of D2 the exporter with `maxlevel = 0` emitted every edge (kernel-checked witness) -/
+theorem D2_witness :
+    (merIter true d2Cfg d2Tree []).1 = ["graph TD", "n0-->n1", "n0-->n2"] ∧
+    (merIter false d2Cfg d2Tree []).1 = ["graph TD"] := by
+  decide
+
 end Anytree.Props.C13
